@@ -251,7 +251,8 @@ Proof. exact example_stage_panic_propagates. Qed.
    Third-party code that stays a function, i.e. is assumed to RETURN, nothing else:
      inflate, lzw      flate2 ZlibDecoder::read_to_end, weezl decode_all
      utf16be_bom       encoding_rs UTF_16BE.decode, reached only for /Encoding UniGB-UCS2-H / UniGB-UTF16-H
-     other_sections    nom on a ToUnicode CMap whose CIDSystemInfo dictionary holds nested values (Model/CMapParser.v
+     other_sections    nom on a ToUnicode CMap whose CIDSystemInfo dictionary holds a value other than a name, a short integer or a
+                       literal string without parentheses / backslashes inside (Model/CMapParser.v
                        answers PUnmodelled there): the sections it finds or a parse error; they then go through the real
                        from_sections, so decode_text's sites stay covered.
    Hence `_partial` for the last item only: that corner of the CMap GRAMMAR is not modelled; everything of lopdf's own
@@ -270,7 +271,7 @@ Qed.
 (* extract_text_chunks on ANY document, ANY page numbers: every entry is a value or an error -- no Panic, no OutOfFuel -- with
    the explicit fuel max (DEREF_LIMIT + 1) (|objects| + 2); and the entries are those of Query.extract_text_chunks on the
    two stages with their outcome forgotten *)
-Theorem C13_extract_text_total_real_partial :
+Theorem C13_extract_text_chunks_total_real_partial :
   forall (inflate : bytes -> bytes) (lzw : bool -> bytes -> bytes) (utf16be_bom : bytes -> ustring)
          (other_sections : bytes -> option (list CMap.csection)) d ns fuel,
     fuel_text (d_objects d) <= fuel ->
@@ -283,6 +284,15 @@ Proof.
   intros inflate lzw u os d ns fuel H. destruct (extract_text_chunks_total_real inflate lzw u os d ns fuel H) as [H1 H2].
   split; [|exact H2]. eapply Forall_impl; [|exact H1]. intros o Ho. apply returns_iff. exact Ho.
 Qed.
+
+(* extract_text (all fragments in page order, `?` on each) on ANY document and ANY page numbers: a value or an error *)
+Theorem C13_extract_text_total_real_partial :
+  forall (inflate : bytes -> bytes) (lzw : bool -> bytes -> bytes) (utf16be_bom : bytes -> ustring)
+         (other_sections : bytes -> option (list CMap.csection)) d ns fuel,
+    fuel_text (d_objects d) <= fuel ->
+    let o := extract_text_x (decomp_real inflate lzw) (text_of_real inflate lzw utf16be_bom other_sections) fuel d ns in
+    (exists v, o = Ok v) \/ o = Err.
+Proof. intros. apply returns_iff. apply extract_text_total_real. assumption. Qed.
 
 (* the adapter for the text stage: stages that return (the text stage only on encodings that can occur) make the lifted
    query equal to Query's *)
@@ -304,6 +314,16 @@ Theorem C13_example_real_text :
       (fuel_text (d_objects ex_real_doc)) ex_real_doc [1%N; 2%N]
   = [Ok (O, [Some [72; 105]; Some [97; 98; 99; 32; 65533; 32; 10]]%N); Err].
 Proof. exact example_real_text. Qed.
+
+Theorem C13_example_real_extract_text :
+  extract_text_x (decomp_real (fun _ => []) (fun _ _ => []))
+      (text_of_real (fun _ => []) (fun _ _ => []) (fun _ => []) (fun _ => None))
+      (fuel_text (d_objects ex_real_doc)) ex_real_doc [1%N]
+  = Ok [72; 105; 97; 98; 99; 32; 65533; 32; 10]%N /\
+  extract_text_x (decomp_real (fun _ => []) (fun _ _ => []))
+      (text_of_real (fun _ => []) (fun _ _ => []) (fun _ => []) (fun _ => None))
+      (fuel_text (d_objects ex_real_doc)) ex_real_doc [1%N; 2%N] = Err.
+Proof. exact example_real_extract_text. Qed.
 
 Print Assumptions C13_dereference_total.
 Print Assumptions C13_get_object_total.
@@ -332,6 +352,8 @@ Print Assumptions C13_get_page_content_total_real.
 Print Assumptions C13_get_page_content_total_gallina.
 Print Assumptions C13_example_stage_panic_propagates.
 Print Assumptions C13_text_stage_returns_partial.
-Print Assumptions C13_extract_text_total_real_partial.
+Print Assumptions C13_extract_text_chunks_total_real_partial.
 Print Assumptions C13_extract_text_adapter.
 Print Assumptions C13_example_real_text.
+Print Assumptions C13_extract_text_total_real_partial.
+Print Assumptions C13_example_real_extract_text.
